@@ -526,6 +526,27 @@ func genSplit(g *Gen, n int) {
 			cvas = append(cvas, a)
 			g.count("pattern/delegated-exceeds-vesting")
 		}
+		if sc%3 == 2 {
+			// directed shape (D37): a direct creation whose start lies so far before 1970 that end - start does
+			// not fit into int64 (the SDK's vesting arithmetic then goes negative and NewCoin panics in every
+			// later split / move of that account): must be refused
+			src0 := vaddr(fresh)
+			bad := vaddr(fresh + 1)
+			to := vaddr(fresh + 2)
+			fresh += 3
+			g.emit("v.fund %s [uc4e=5000]", src0)
+			g.emit("v.createVA %s %s [uc4e=1000] %d %d", atok(src0), atok(bad), g.pickI(-4611686018427387914, -9223372036854775807, -1), g.pickI(4611686018427387914, 9223372036854775807))
+			g.emit("v.q.locked %s", bad)
+			switch g.intn(3) {
+			case 0:
+				g.emit("v.split %s %s [uc4e=1]", atok(bad), atok(to))
+			case 1:
+				g.emit("v.move %s %s", atok(bad), atok(to))
+			default:
+				g.emit("v.moveDenoms %s %s uc4e", atok(bad), atok(to))
+			}
+			g.count("shape/start-before-1970")
+		}
 		if sc%3 == 1 {
 			// directed shape: a DELAYED vesting account (another SDK vesting type) as sender of split /
 			// move: rejected, and the account record stays what it is
